@@ -133,6 +133,23 @@ def check_json(inp):
             removed -= keys
         if removed:
             fails.append(failure("only temporal/environmental group fields removed", sorted(removed), note="sort=%s" % sort))
+    # the same object reached through the object protocol (copy, deepcopy, pickle round trip): it still is "the object built from
+    # the string supplied"; ways of copying that are not available are left out
+    for how in (obs.CLONERS if inp.get("copies", True) else ()):
+        c = obs.clone(o, how)
+        if c is None:
+            continue
+        for (sort, minimal), j in docs.items():
+            try:
+                jc = c.as_json(sort=sort, minimal=minimal)
+            except BaseException as e:  # noqa
+                fails.append(failure("as_json of a copy returns", "%s: %s" % (type(e).__name__, e), note=how))
+                break
+            if list(jc.items()) != list(j.items()):
+                diff = sorted(k for k in set(j) | set(jc) if j.get(k) != jc.get(k)) or "key order"
+                fails.append(failure(dict((k, j.get(k)) for k in diff) if diff != "key order" else list(j), dict((k, jc.get(k)) for k in diff) if diff != "key order" else list(jc),
+                                     note="as_json(sort=%s, minimal=%s) of a copy (%s) differs from the original's" % (sort, minimal, how)))
+                break
     seen, out = set(), []
     for f in fails:
         k = (repr(f["expected"]), repr(f["observed"]))
@@ -225,9 +242,9 @@ def sweep_work(shard, n, seed):
     part = runner.Part(PID)
     rng = random.Random(runner.mix(seed, 11, shard))
     for ver in spec.VKEYS:
-        for _ in range(n):
+        for i in range(n):
             v = c09._rand_class(rng, ver)
-            part.check("json", check_json, {"ver": ver, "s": v})
+            part.check("json", check_json, {"ver": ver, "s": v, "copies": i % 8 == 0})      # the breadth sweep copies every eighth object
             part.evaluations += 1
             part.nontrivial_count += 1
             part.classes["sweep:v" + ver] += 1
